@@ -502,6 +502,9 @@ def build(S):
         from . import C03_circular
 
         C03_circular.add(S)
+        from . import C18_dct
+
+        C18_dct.add(S)  # psi_interpolation_method="dct": Bp_R, Bp_Z are built from ddZ, ddR = D of __call__, on NON-square psi grids too
 
 
 def post(S):
